@@ -6,7 +6,9 @@ import (
 	"encoding/json"
 	"errors"
 	"fmt"
+	"os"
 	"reflect"
+	"strings"
 	"testing"
 
 	"github.com/Eyevinn/mp4ff/avc"
@@ -26,6 +28,47 @@ func init() {
 	harness.RegisterReplay("timecode", harness.Replayer(checkTimeCode))
 	harness.RegisterReplay("fixedsei", harness.Replayer(checkFixed))
 	harness.RegisterReplay("passthrough", harness.Replayer(checkPass))
+	// development aid: VERIF_C17_NOAVOID=all or a comma-separated list of switch names
+	if v := os.Getenv("VERIF_C17_NOAVOID"); v == "all" {
+		avoidKnown = map[string]bool{}
+	} else if v != "" {
+		for _, name := range strings.Split(v, ",") {
+			delete(avoidKnown, name)
+		}
+	}
+}
+
+// avoidKnown lists library behaviours that contradict the property / the standard on the unchanged tree.
+// The relation concerned is judged in the library's form (and counted with harness.Rec.Exclude(name)) so
+// that the search continues behind it; a case carrying "noAvoid": true (the parked reproducers) is judged
+// against the standard.
+var avoidKnown = map[string]bool{}
+
+// acceptZeroPadded: sei.PicTimingAvcSEI.Payload() completes a pic_timing whose syntax does not end byte
+// aligned with zero bits only (FixedSliceWriter.FlushBits), where H.264 D.1 sei_payload() has "if(
+// !byte_aligned( ) ) { bit_equal_to_one; while( !byte_aligned( ) ) bit_equal_to_zero }" (as H.265 D.2.1 has
+// it and as sei.TimeCodeSEI.Payload() does). C17 demands that the serialised message decodes to an equal
+// message and that Size() is the serialised length, not that stop bit: BOTH forms of the last byte are
+// accepted (exactly that one bit is free), both are decoded, and which one the library wrote is counted in
+// the classes "pictiming-zero-padded" / "pictiming-stop-bit". An observation, not a finding of C17.
+const acceptZeroPadded = true
+
+func avoid(noAvoid bool, name string) bool {
+	if noAvoid || !avoidKnown[name] {
+		return false
+	}
+	harness.Rec.Exclude(name)
+	return true
+}
+
+// withoutStopBit returns the payload with the sei_payload stop bit (bit number nbits, 0 = MSB of byte 0)
+// cleared: the library's form of an AVC pic_timing payload of nbits syntax bits, nbits%8 != 0.
+func withoutStopBit(p []byte, nbits int) []byte {
+	q := append([]byte{}, p...)
+	if nbits%8 != 0 && nbits/8 < len(q) {
+		q[nbits/8] &^= 0x80 >> uint(nbits%8)
+	}
+	return q
 }
 
 func TestReplay(t *testing.T) { harness.ReplayPath(t) }
@@ -35,12 +78,53 @@ func TestReplay(t *testing.T) { harness.ReplayPath(t) }
 
 type msg struct {
 	Type    uint             `json:"type"`
-	Payload harness.HexBytes `json:"payload"`
+	Payload harness.HexBytes `json:"payload"` // the expected payload (for typed messages: the reference serialisation)
+	// PTBits: number of syntax bits of an AVC pic_timing payload that was serialised from a value tree (the
+	// rest of the last byte is the sei_payload stop bit + alignment); 0 for everything else
+	PTBits int `json:"pt_bits,omitempty"`
+	// Typed: the message is handed to WriteSEIMessages as a typed message object built from this value
+	// tree instead of a *sei.SEIData
+	Typed *typedMsg `json:"typed,omitempty"`
+}
+
+type typedMsg struct {
+	Kind string         `json:"kind"` // "pictiming" (AVC, no HRD) | "timecode" | "137" | "144" | "cea608" (decoded from Payload)
+	PT   *picTimingCase `json:"pt,omitempty"`
+	TC   *timeCodeCase  `json:"tc,omitempty"`
+	FX   *fixedCase     `json:"fx,omitempty"`
 }
 
 type listCase struct {
-	Msgs  []msg  `json:"msgs"`
-	Route string `json:"route"` // "extract" | "avc" | "hevc"
+	Msgs    []msg  `json:"msgs"`
+	Route   string `json:"route"` // "extract" | "avc" | "hevc"
+	NoAvoid bool   `json:"noAvoid,omitempty"`
+}
+
+// object builds the message object handed to the writer and the (type, payload) pair the value tree stands for.
+func (m msg) object() (sei.SEIMessage, uint, []byte, *harness.Fail) {
+	if m.Typed == nil {
+		return sei.NewSEIData(m.Type, append([]byte{}, m.Payload...)), m.Type, m.Payload, nil
+	}
+	t := m.Typed
+	switch {
+	case t.Kind == "pictiming" && t.PT != nil:
+		return t.PT.message(), 1, refPicTiming(*t.PT), nil
+	case t.Kind == "timecode" && t.TC != nil:
+		return t.TC.message(), 136, refTimeCode(*t.TC), nil
+	case (t.Kind == "137" || t.Kind == "144") && t.FX != nil:
+		o, ref := t.FX.message()
+		return o, uint(t.FX.Kind), ref, nil
+	case t.Kind == "cea608":
+		o, err := sei.DecodeSEIMessage(sei.NewSEIData(4, append([]byte{}, m.Payload...)), sei.AVC)
+		if err != nil {
+			return nil, 0, nil, harness.Failf("C17|pass-through cea608|decode error", "%v (payload %x)", err, []byte(m.Payload))
+		}
+		if _, ok := o.(*sei.CEA608sei); !ok {
+			return nil, 0, nil, harness.Failf("C17|pass-through cea608|not recognised as CEA-608", "%T", o)
+		}
+		return o, 4, m.Payload, nil
+	}
+	return nil, 0, nil, harness.Failf("harness|c17|bad-case", "typed message %+v", *t)
 }
 
 // refSEI serialises the sei_rbsp independently: ff-run coded type and size, payload, trailing bits; then escapes.
@@ -64,16 +148,56 @@ func refSEI(msgs []msg) []byte {
 
 func checkList(c listCase) *harness.Fail {
 	var in []sei.SEIMessage
-	for _, m := range c.Msgs {
-		in = append(in, sei.NewSEIData(m.Type, append([]byte{}, m.Payload...)))
+	// wire: what the property expects on the wire; back: what Payload() of the parsed message is expected
+	// to return. Both are the (type, payload) pairs of the case, except behind the known switch: an AVC
+	// pic_timing with a partial last byte is serialised by the library when it is written from a typed
+	// message, and again by Payload() of the message decoded on the avc route.
+	wire := make([]msg, len(c.Msgs))
+	back := make([]msg, len(c.Msgs))
+	libWire := make([]msg, len(c.Msgs)) // the library's form, for naming the root cause
+	affected := false
+	for i, m := range c.Msgs {
+		o, ty, ref, f := m.object()
+		if f != nil {
+			return f
+		}
+		if ty != m.Type || !bytes.Equal(ref, m.Payload) {
+			return harness.Failf("harness|c17|bad-case", "msg %d: (type,payload) of the case (%d,%x) is not the reference serialisation of its value tree (%d,%x)", i, m.Type, []byte(m.Payload), ty, ref)
+		}
+		in = append(in, o)
+		wire[i] = msg{Type: m.Type, Payload: m.Payload}
+		back[i], libWire[i] = wire[i], wire[i]
+		if m.Type == 1 && m.PTBits%8 != 0 && (m.Typed != nil || c.Route == "avc") {
+			affected = true
+		}
+	}
+	useLib := affected && acceptZeroPadded
+	for i, m := range c.Msgs {
+		if m.Type != 1 || m.PTBits%8 == 0 {
+			continue
+		}
+		lib := withoutStopBit(m.Payload, m.PTBits)
+		if m.Typed != nil {
+			libWire[i].Payload = lib
+			if useLib {
+				wire[i].Payload, back[i].Payload = lib, lib
+			}
+		}
+		if c.Route == "avc" && useLib {
+			back[i].Payload = lib
+		}
 	}
 	buf := bytes.Buffer{}
 	if err := sei.WriteSEIMessages(&buf, in); err != nil {
 		return harness.Failf("C17|WriteSEIMessages|error", "%v", err)
 	}
 	out := buf.Bytes()
-	if ref := refSEI(c.Msgs); !bytes.Equal(out, ref) {
-		return harness.Failf("C17|WriteSEIMessages|bytes differ from reference sei_rbsp", "got %s want %s", harness.HexTrunc(out, 300), harness.HexTrunc(ref, 300))
+	if ref := refSEI(wire); !bytes.Equal(out, ref) {
+		key := "C17|WriteSEIMessages|bytes differ from reference sei_rbsp"
+		if bytes.Equal(out, refSEI(libWire)) {
+			key = "C17|PicTimingAvcSEI.Payload|no bit_equal_to_one before the alignment zeros"
+		}
+		return harness.Failf(key, "got %s want %s", harness.HexTrunc(out, 300), harness.HexTrunc(ref, 300))
 	}
 	switch c.Route {
 	case "extract":
@@ -89,10 +213,10 @@ func checkList(c listCase) *harness.Fail {
 			return harness.Failf("C17|ExtractSEIData|message count differs", "got %d want %d (stream %s)", len(got), len(c.Msgs), harness.HexTrunc(out, 300))
 		}
 		for i := range got {
-			if got[i].Type() != c.Msgs[i].Type || !bytes.Equal(got[i].Payload(), c.Msgs[i].Payload) {
-				return harness.Failf("C17|ExtractSEIData|(type,payload) differs", "msg %d: got (%d,%s) want (%d,%s)", i, got[i].Type(), harness.HexTrunc(got[i].Payload(), 80), c.Msgs[i].Type, harness.HexTrunc(c.Msgs[i].Payload, 80))
+			if got[i].Type() != wire[i].Type || !bytes.Equal(got[i].Payload(), wire[i].Payload) {
+				return harness.Failf("C17|ExtractSEIData|(type,payload) differs", "msg %d: got (%d,%s) want (%d,%s)", i, got[i].Type(), harness.HexTrunc(got[i].Payload(), 80), wire[i].Type, harness.HexTrunc(wire[i].Payload, 80))
 			}
-			if got[i].Size() != uint(len(c.Msgs[i].Payload)) {
+			if got[i].Size() != uint(len(wire[i].Payload)) {
 				return harness.Failf("C17|SEIData.Size|differs", "msg %d", i)
 			}
 		}
@@ -111,11 +235,15 @@ func checkList(c listCase) *harness.Fail {
 			return harness.Failf("C17|"+c.Route+".ParseSEINalu|message count differs", "got %d want %d", len(msgs), len(c.Msgs))
 		}
 		for i := range msgs {
-			if msgs[i].Type() != c.Msgs[i].Type || !bytes.Equal(msgs[i].Payload(), c.Msgs[i].Payload) {
-				return harness.Failf("C17|"+c.Route+".ParseSEINalu|(type,payload) differs", "msg %d: got (%d,%s) want (%d,%s)", i, msgs[i].Type(), harness.HexTrunc(msgs[i].Payload(), 80), c.Msgs[i].Type, harness.HexTrunc(c.Msgs[i].Payload, 80))
+			if msgs[i].Type() != back[i].Type || !bytes.Equal(msgs[i].Payload(), back[i].Payload) {
+				key := "C17|" + c.Route + ".ParseSEINalu|(type,payload) differs"
+				if m := c.Msgs[i]; m.Type == 1 && m.PTBits%8 != 0 && msgs[i].Type() == 1 && bytes.Equal(msgs[i].Payload(), withoutStopBit(m.Payload, m.PTBits)) {
+					key = "C17|PicTimingAvcSEI.Payload|no bit_equal_to_one before the alignment zeros"
+				}
+				return harness.Failf(key, "msg %d: got (%d,%s) want (%d,%s)", i, msgs[i].Type(), harness.HexTrunc(msgs[i].Payload(), 80), back[i].Type, harness.HexTrunc(back[i].Payload, 80))
 			}
-			if msgs[i].Size() != uint(len(c.Msgs[i].Payload)) {
-				return harness.Failf("C17|SEIMessage.Size|differs from payload length", "msg %d type %d: Size %d len %d", i, msgs[i].Type(), msgs[i].Size(), len(c.Msgs[i].Payload))
+			if msgs[i].Size() != uint(len(back[i].Payload)) {
+				return harness.Failf("C17|SEIMessage.Size|differs from payload length", "msg %d type %d: Size %d len %d", i, msgs[i].Type(), msgs[i].Size(), len(back[i].Payload))
 			}
 			_ = msgs[i].String()
 		}
@@ -125,13 +253,29 @@ func checkList(c listCase) *harness.Fail {
 
 var payloadByte = rapid.OneOf(rapid.SampledFrom([]byte{0, 0, 0, 1, 2, 3, 0x80, 0xff}), rapid.Byte())
 
+// bigSizes: payload sizes whose ff-run coding needs 4..274 size bytes and that lie around powers of two
+var bigSizes = []int{1023, 1024, 1025, 4095, 4096, 65535, 65536, 70000}
+
 func genPayload(t *rapid.T, min int) []byte {
 	n := rapid.OneOf(rapid.IntRange(0, 20), rapid.IntRange(0, 700),
 		rapid.SampledFrom([]int{0, 1, 253, 254, 255, 256, 509, 510, 511, 765})).Draw(t, "size")
+	if rapid.IntRange(0, 49).Draw(t, "bigsize") == 0 { // about 2 %
+		n = rapid.SampledFrom(bigSizes).Draw(t, "size")
+	}
 	if n < min {
 		n = min
 	}
-	p := rapid.SliceOfN(payloadByte, n, n).Draw(t, "payload")
+	var p []byte
+	if n > 1000 {
+		// a drawn period of 1..61 bytes repeated: cheap to draw, still zero-heavy
+		unit := rapid.SliceOfN(payloadByte, 1, 61).Draw(t, "unit")
+		p = make([]byte, n)
+		for i := range p {
+			p[i] = unit[i%len(unit)]
+		}
+	} else {
+		p = rapid.SliceOfN(payloadByte, n, n).Draw(t, "payload")
+	}
 	switch rapid.IntRange(0, 5).Draw(t, "tailshape") {
 	case 0:
 		if n >= 1 {
@@ -150,40 +294,77 @@ func genPayload(t *rapid.T, min int) []byte {
 }
 
 // typed payload generators for types whose decoders interpret the payload (used on the avc/hevc routes)
-func validPayloadFor(t *rapid.T, route string, ty uint) []byte {
+// The second result is the number of syntax bits of a generated AVC pic_timing payload (msg.PTBits).
+func validPayloadFor(t *rapid.T, route string, ty uint) ([]byte, int) {
 	switch {
 	case ty == 4:
 		p := genPayload(t, 8)
 		if p[0] == 0xb5 && p[1] == 0 && p[2] == 0x31 {
-			p[0] = 0xb4 // keep it a plain registered message here; CEA-608 is generated in the pass-through test
+			p[0] = 0xb4 // keep it a plain registered message here; CEA-608 comes as typed message and in the pass-through test
 		}
-		return p
+		return p, 0
 	case ty == 5:
-		return genPayload(t, 16)
+		return genPayload(t, 16), 0
 	case ty == 1 && route == "avc":
-		return refPicTiming(genPicTiming(t, false))
+		pt := genPicTiming(t, false)
+		return refPicTiming(pt), ptBits(pt).NrBits()
 	case ty == 136 && route == "hevc":
-		return refTimeCode(genTimeCode(t))
+		return refTimeCode(genTimeCode(t)), 0
 	case ty == 137 && route == "hevc":
-		return rapid.SliceOfN(rapid.Byte(), 24, 24).Draw(t, "p137")
+		return rapid.SliceOfN(rapid.Byte(), 24, 24).Draw(t, "p137"), 0
 	case ty == 144 && route == "hevc":
-		return rapid.SliceOfN(rapid.Byte(), 4, 4).Draw(t, "p144")
+		return rapid.SliceOfN(rapid.Byte(), 4, 4).Draw(t, "p144"), 0
 	}
-	return genPayload(t, 0)
+	return genPayload(t, 0), 0
+}
+
+// genTypedMsg: a message that reaches WriteSEIMessages as a typed object; (Type, Payload) is the reference
+// serialisation of its value tree.
+func genTypedMsg(t *rapid.T) msg {
+	switch kind := rapid.SampledFrom([]string{"pictiming", "timecode", "137", "144", "cea608"}).Draw(t, "typedkind"); kind {
+	case "pictiming":
+		pt := genPicTiming(t, false)
+		return msg{Type: 1, Payload: refPicTiming(pt), PTBits: ptBits(pt).NrBits(), Typed: &typedMsg{Kind: kind, PT: &pt}}
+	case "timecode":
+		tc := genTimeCode(t)
+		return msg{Type: 136, Payload: refTimeCode(tc), Typed: &typedMsg{Kind: kind, TC: &tc}}
+	case "137", "144":
+		k := 137
+		if kind == "144" {
+			k = 144
+		}
+		fx := genFixed(t, k)
+		_, ref := fx.message()
+		return msg{Type: uint(k), Payload: ref, Typed: &typedMsg{Kind: kind, FX: &fx}}
+	}
+	return msg{Type: 4, Payload: genCEA608(t), Typed: &typedMsg{Kind: "cea608"}}
 }
 
 func genList(t *rapid.T) listCase {
 	c := listCase{Route: rapid.SampledFrom([]string{"extract", "extract", "avc", "hevc"}).Draw(t, "route")}
+	// list length: 1..6 mostly, 20..40 in about one case of ten. An empty list is not generated: the
+	// property speaks of "the same list of (type, payload) pairs" extracted from the written sei_rbsp, and
+	// sei_rbsp() (H.264 7.3.2.3 / H.265 7.3.2.4: do sei_message() while more_rbsp_data()) holds at least
+	// one message, so a list of none has no representation to extract from.
 	n := rapid.IntRange(1, 6).Draw(t, "n")
+	if rapid.IntRange(0, 9).Draw(t, "long") == 0 {
+		n = rapid.IntRange(20, 40).Draw(t, "n")
+	}
 	for i := 0; i < n; i++ {
-		ty := uint(rapid.OneOf(rapid.IntRange(0, 400), rapid.SampledFrom([]int{0, 1, 3, 4, 5, 6, 128, 136, 137, 144, 254, 255, 256, 509, 510, 511, 765, 1000})).Draw(t, "type"))
+		if rapid.IntRange(0, 3).Draw(t, "typed") == 0 {
+			c.Msgs = append(c.Msgs, genTypedMsg(t))
+			continue
+		}
+		ty := uint(rapid.OneOf(rapid.IntRange(0, 400), rapid.SampledFrom([]int{0, 1, 3, 4, 5, 6, 128, 136, 137, 144, 254, 255, 256, 509, 510, 511, 765, 1000,
+			4095, 65535, 65536})).Draw(t, "type"))
 		var p []byte
+		ptb := 0
 		if c.Route == "extract" {
 			p = genPayload(t, 0)
 		} else {
-			p = validPayloadFor(t, c.Route, ty)
+			p, ptb = validPayloadFor(t, c.Route, ty)
 		}
-		c.Msgs = append(c.Msgs, msg{Type: ty, Payload: p})
+		c.Msgs = append(c.Msgs, msg{Type: ty, Payload: p, PTBits: ptb})
 	}
 	return c
 }
@@ -210,11 +391,38 @@ func TestLists(t *testing.T) {
 		if big {
 			cls = append(cls, "list-type-or-size>=255")
 		}
+		seen := map[string]bool{}
+		for _, m := range c.Msgs {
+			if m.Typed != nil {
+				seen["list-typed-"+m.Typed.Kind] = true
+			}
+			if len(m.Payload) >= 1023 {
+				seen["list-size>=1023"] = true
+			}
+			if len(m.Payload) >= 65535 {
+				seen["list-size>=65535"] = true
+			}
+			if m.Type >= 4095 {
+				seen["list-type>=4095"] = true
+			}
+			if m.Type == 1 && m.PTBits%8 != 0 {
+				seen["list-avc-pictiming-with-stop-bit"] = true
+			}
+		}
+		if len(c.Msgs) >= 20 {
+			seen["list-length-20..40"] = true
+		}
+		for _, l := range []string{"list-typed-pictiming", "list-typed-timecode", "list-typed-137", "list-typed-144", "list-typed-cea608",
+			"list-size>=1023", "list-size>=65535", "list-type>=4095", "list-avc-pictiming-with-stop-bit", "list-length-20..40"} {
+			if seen[l] {
+				cls = append(cls, l)
+			}
+		}
 		if esc {
 			cls = append(cls, "list-needs-escape")
 		}
 		harness.Rec.Case(big || esc, raw, cls...)
-		if (big || esc) && harness.Rec.WantSample() && len(raw) < 500 {
+		if (big || esc) && harness.Rec.WantSample() && len(raw) < 900 {
 			harness.Rec.Sample(map[string]interface{}{"kind": "seilist", "case": c})
 		}
 		harness.Report(rt, "seilist", c, harness.Guarded(func() *harness.Fail { return checkList(c) }))
@@ -231,6 +439,11 @@ type clockAvc struct {
 }
 
 type picTimingCase struct {
+	// HrdKind selects the SPS handed to avc.ParseSEINalu. With HRD: 0 NAL HRD parameters, 1 VCL HRD
+	// parameters, 2 both (equal, as E.2.1 requires). Without: 0 SPS with VUI without HRD, 1 no SPS, 2 SPS without VUI.
+	HrdKind int  `json:"hrd_kind,omitempty"`
+	NoAvoid bool `json:"noAvoid,omitempty"`
+
 	HasHRD        bool       `json:"has_hrd"`
 	CpbLenM1      byte       `json:"cpb_len_m1"`
 	DpbLenM1      byte       `json:"dpb_len_m1"`
@@ -281,6 +494,7 @@ func genPicTiming(t *rapid.T, allowHRD bool) picTimingCase {
 	c := picTimingCase{}
 	if allowHRD {
 		c.HasHRD = rapid.Bool().Draw(t, "hrd")
+		c.HrdKind = rapid.IntRange(0, 2).Draw(t, "hrdkind")
 		c.TimeOffsetLen = byte(rapid.OneOf(rapid.IntRange(0, 31), rapid.SampledFrom([]int{0, 1, 24, 31})).Draw(t, "tol"))
 	}
 	if c.HasHRD {
@@ -303,8 +517,21 @@ func genPicTiming(t *rapid.T, allowHRD bool) picTimingCase {
 	return c
 }
 
-// refPicTiming: H.264 D.1.3 pic_timing written by the harness' own bit writer
+// refPicTiming: H.264 D.1.3 pic_timing written by the harness' own bit writer, completed as D.1
+// sei_payload() prescribes: "if( !byte_aligned( ) ) { bit_equal_to_one /* equal to 1 */
+// while( !byte_aligned( ) ) bit_equal_to_zero }" (the same rule as H.265 D.2.1, see refTimeCode); payloadSize counts
+// these bits. A payload whose last byte is completed with zero bits only is not a sei_payload( ) of the
+// standard; the library's decoder accepts both forms (it does not look at the bits behind the syntax).
 func refPicTiming(c picTimingCase) []byte {
+	w := ptBits(c)
+	if !w.Aligned() {
+		w.TrailingBits()
+	}
+	return w.Out()
+}
+
+// ptBits: the pic_timing( ) syntax elements alone.
+func ptBits(c picTimingCase) *nalgen.BitWriter {
 	w := nalgen.NewBitWriter()
 	if c.HasHRD {
 		w.U(c.CpbV, int(c.CpbLenM1)+1)
@@ -345,7 +572,7 @@ func refPicTiming(c picTimingCase) []byte {
 			w.U(uint64(int64(k.Offset))&(1<<c.TimeOffsetLen-1), int(c.TimeOffsetLen))
 		}
 	}
-	return w.Out()
+	return w
 }
 
 func (c picTimingCase) message() *sei.PicTimingAvcSEI {
@@ -363,26 +590,70 @@ func (c picTimingCase) message() *sei.PicTimingAvcSEI {
 	return m
 }
 
+// sps builds what avc.ParseSEINalu consults: VUI.VclHrdParameters / NalHrdParameters with the three length
+// fields. ok=false: no SPS can express the case (a time offset length without HRD parameters).
+func (c picTimingCase) sps() (sps *avc.SPS, ok bool) {
+	if !c.HasHRD {
+		if c.TimeOffsetLen != 0 {
+			return nil, false
+		}
+		switch c.HrdKind {
+		case 1:
+			return nil, true
+		case 2:
+			return &avc.SPS{}, true
+		}
+		return &avc.SPS{VUI: &avc.VUIParameters{PicStructPresentFlag: true}}, true
+	}
+	hp := func() *avc.HrdParameters {
+		return &avc.HrdParameters{CpbEntries: []avc.CpbEntry{{}}, InitialCpbRemovalDelayLengthMinus1: 23,
+			CpbRemovalDelayLengthMinus1: uint(c.CpbLenM1), DpbOutputDelayLengthMinus1: uint(c.DpbLenM1), TimeOffsetLength: uint(c.TimeOffsetLen)}
+	}
+	vui := &avc.VUIParameters{PicStructPresentFlag: true}
+	if c.HrdKind == 0 || c.HrdKind == 2 {
+		vui.NalHrdParametersPresentFlag, vui.NalHrdParameters = true, hp()
+	}
+	if c.HrdKind == 1 || c.HrdKind == 2 {
+		vui.VclHrdParametersPresentFlag, vui.VclHrdParameters = true, hp()
+	}
+	return &avc.SPS{VUI: vui}, true
+}
+
 func checkPicTiming(c picTimingCase) *harness.Fail {
 	m := c.message()
 	ref := refPicTiming(c)
+	nbits := ptBits(c).NrBits()
 	p := m.Payload()
 	if !bytes.Equal(p, ref) {
-		return harness.Failf("C17|PicTimingAvcSEI.Payload|differs from reference serialisation", "got %x want %x (%+v)", p, ref, c)
+		lib := withoutStopBit(ref, nbits)
+		if !bytes.Equal(p, lib) {
+			return harness.Failf("C17|PicTimingAvcSEI.Payload|differs from reference serialisation", "got %x want %x (%+v)", p, ref, c)
+		}
+		if !acceptZeroPadded {
+			return harness.Failf("C17|PicTimingAvcSEI.Payload|no bit_equal_to_one before the alignment zeros", "%d syntax bits: got %x want %x (H.264 D.1 sei_payload) (%+v)", nbits, p, ref, c)
+		}
+		harness.Rec.Class("pictiming-zero-padded")
+	} else if nbits%8 != 0 {
+		harness.Rec.Class("pictiming-stop-bit")
 	}
-	if m.Size() != uint(len(p)) {
-		return harness.Failf("C17|PicTimingAvcSEI.Size|differs from serialised length", "Size %d len %d", m.Size(), len(p))
+	if m.Size() != uint(len(p)) || len(p) != len(ref) {
+		return harness.Failf("C17|PicTimingAvcSEI.Size|differs from serialised length", "Size %d len %d reference %d", m.Size(), len(p), len(ref))
 	}
 	var cbp *sei.CbpDbpDelay
 	if c.HasHRD {
 		cbp = &sei.CbpDbpDelay{CpbRemovalDelayLengthMinus1: c.CpbLenM1, DpbOutputDelayLengthMinus1: c.DpbLenM1}
 	}
-	got, err := sei.DecodePicTimingAvcSEIHRD(sei.NewSEIData(1, p), cbp, c.TimeOffsetLen)
-	if err != nil {
-		return harness.Failf("C17|DecodePicTimingAvcSEIHRD|error", "%v (payload %x)", err, p)
-	}
-	if !reflect.DeepEqual(got, sei.SEIMessage(m)) {
-		return harness.Failf("C17|DecodePicTimingAvcSEIHRD|decoded message differs", "payload %x:\n got %s\nwant %s", p, dump(got), dump(m))
+	var got sei.SEIMessage
+	// the library's own serialisation and the standard's form of the payload decode to the same message
+	for _, pl := range [][]byte{p, ref} {
+		var err error
+		got, err = sei.DecodePicTimingAvcSEIHRD(sei.NewSEIData(1, pl), cbp, c.TimeOffsetLen)
+		if err != nil {
+			return harness.Failf("C17|DecodePicTimingAvcSEIHRD|error", "%v (payload %x)", err, pl)
+		}
+		if !reflect.DeepEqual(got, sei.SEIMessage(m)) {
+			return harness.Failf("C17|DecodePicTimingAvcSEIHRD|decoded message differs", "payload %x:\n got %s\nwant %s", pl, dump(got), dump(m))
+		}
 	}
 	if !c.HasHRD && c.TimeOffsetLen == 0 {
 		got2, err := sei.DecodeSEIMessage(sei.NewSEIData(1, p), sei.AVC)
@@ -391,6 +662,29 @@ func checkPicTiming(c picTimingCase) *harness.Fail {
 		}
 	}
 	_ = got.String()
+	// through the NAL unit parser with the SPS that carries the field lengths: the message as the library
+	// writes it, and the standard's serialisation
+	if sps, ok := c.sps(); ok {
+		buf := bytes.Buffer{}
+		buf.WriteByte(0x06)
+		if err := sei.WriteSEIMessages(&buf, []sei.SEIMessage{m}); err != nil {
+			return harness.Failf("C17|WriteSEIMessages|error", "%v", err)
+		}
+		std := append([]byte{0x06}, refSEI([]msg{{Type: 1, Payload: ref}})...)
+		for _, nalu := range [][]byte{buf.Bytes(), std} {
+			pristine := append([]byte{}, nalu...)
+			msgs, err := avc.ParseSEINalu(nalu, sps)
+			if err != nil {
+				return harness.Failf("C17|avc.ParseSEINalu(sps)|error", "%v (nalu %x)", err, nalu)
+			}
+			if len(msgs) != 1 || !reflect.DeepEqual(msgs[0], sei.SEIMessage(m)) {
+				return harness.Failf("C17|avc.ParseSEINalu(sps)|decoded pic_timing differs", "nalu %x hrd kind %d:\n got %s\nwant %s", nalu, c.HrdKind, dump(msgs), dump(m))
+			}
+			if !bytes.Equal(nalu, pristine) {
+				return harness.Failf("C17|avc.ParseSEINalu(sps)|input modified", "")
+			}
+		}
+	}
 	return nil
 }
 
@@ -410,6 +704,16 @@ func TestPicTiming(t *testing.T) {
 		}
 		if c.TimeOffsetLen > 0 {
 			cls = append(cls, "pictiming-timeoffset")
+		}
+		if _, ok := c.sps(); ok {
+			if c.HasHRD {
+				cls = append(cls, "pictiming-parsenalu-"+[]string{"nal-hrd", "vcl-hrd", "nal+vcl-hrd"}[c.HrdKind%3])
+			} else {
+				cls = append(cls, "pictiming-parsenalu-"+[]string{"vui-without-hrd", "nil-sps", "sps-without-vui"}[c.HrdKind%3])
+			}
+		}
+		if bits > 0 && ptBits(c).NrBits()%8 != 0 {
+			cls = append(cls, "pictiming-partial-last-byte")
 		}
 		harness.Rec.Case(c.HasHRD || c.TimeOffsetLen > 0 || bits > 2, raw, cls...)
 		if harness.Rec.WantSample() && c.HasHRD {
@@ -596,17 +900,27 @@ type fixedCase struct {
 	FALL uint16    `json:"fall"`
 }
 
-func checkFixed(c fixedCase) *harness.Fail {
+// message returns the typed message of the case and its reference payload (big-endian fields, D.2.28 / D.2.35).
+func (c fixedCase) message() (sei.SEIMessage, []byte) {
 	be16 := func(b []byte, v uint16) []byte { return append(b, byte(v>>8), byte(v)) }
 	be32 := func(b []byte, v uint32) []byte { return append(b, byte(v>>24), byte(v>>16), byte(v>>8), byte(v)) }
 	if c.Kind == 137 {
-		m := sei.MasteringDisplayColourVolumeSEI{DisplayPrimariesX: c.PX, DisplayPrimariesY: c.PY, WhitePointX: c.WX, WhitePointY: c.WY,
+		m := &sei.MasteringDisplayColourVolumeSEI{DisplayPrimariesX: c.PX, DisplayPrimariesY: c.PY, WhitePointX: c.WX, WhitePointY: c.WY,
 			MaxDisplayMasteringLuminance: c.MaxL, MinDisplayMasteringLuminance: c.MinL}
 		var ref []byte
 		for i := 0; i < 3; i++ {
 			ref = be16(be16(ref, c.PX[i]), c.PY[i])
 		}
-		ref = be32(be32(be16(be16(ref, c.WX), c.WY), c.MaxL), c.MinL)
+		return m, be32(be32(be16(be16(ref, c.WX), c.WY), c.MaxL), c.MinL)
+	}
+	m := &sei.ContentLightLevelInformationSEI{MaxContentLightLevel: c.CLL, MaxPicAverageLightLevel: c.FALL}
+	return m, be16(be16(nil, c.CLL), c.FALL)
+}
+
+func checkFixed(c fixedCase) *harness.Fail {
+	if c.Kind == 137 {
+		mi, ref := c.message()
+		m := *mi.(*sei.MasteringDisplayColourVolumeSEI)
 		p := m.Payload()
 		if !bytes.Equal(p, ref) {
 			return harness.Failf("C17|MasteringDisplayColourVolumeSEI.Payload|differs from reference", "got %x want %x", p, ref)
@@ -624,9 +938,10 @@ func checkFixed(c fixedCase) *harness.Fail {
 		_ = got.String()
 		return nil
 	}
-	m := sei.ContentLightLevelInformationSEI{MaxContentLightLevel: c.CLL, MaxPicAverageLightLevel: c.FALL}
+	mi, ref := c.message()
+	m := *mi.(*sei.ContentLightLevelInformationSEI)
 	p := m.Payload()
-	if ref := be16(be16(nil, c.CLL), c.FALL); !bytes.Equal(p, ref) {
+	if !bytes.Equal(p, ref) {
 		return harness.Failf("C17|ContentLightLevelInformationSEI.Payload|differs from reference", "got %x want %x", p, ref)
 	}
 	if m.Size() != uint(len(p)) {
@@ -643,19 +958,28 @@ func checkFixed(c fixedCase) *harness.Fail {
 	return nil
 }
 
-func TestFixed(t *testing.T) {
-	u16 := rapid.OneOf(rapid.Uint16(), rapid.SampledFrom([]uint16{0, 1, 255, 256, 0x7fff, 0x8000, 0xffff}))
-	u32 := rapid.OneOf(rapid.Uint32(), rapid.SampledFrom([]uint32{0, 1, 0xffff, 0x10000, 0x7fffffff, 0x80000000, 0xffffffff}))
-	harness.RunRapid(t, "fixed", func(rt *rapid.T) {
-		c := fixedCase{Kind: rapid.SampledFrom([]int{137, 144}).Draw(rt, "kind")}
-		if c.Kind == 137 {
-			for i := 0; i < 3; i++ {
-				c.PX[i], c.PY[i] = u16.Draw(rt, "px"), u16.Draw(rt, "py")
-			}
-			c.WX, c.WY, c.MaxL, c.MinL = u16.Draw(rt, "wx"), u16.Draw(rt, "wy"), u32.Draw(rt, "maxl"), u32.Draw(rt, "minl")
-		} else {
-			c.CLL, c.FALL = u16.Draw(rt, "cll"), u16.Draw(rt, "fall")
+var (
+	fixedU16 = rapid.OneOf(rapid.Uint16(), rapid.SampledFrom([]uint16{0, 1, 255, 256, 0x7fff, 0x8000, 0xffff}))
+	fixedU32 = rapid.OneOf(rapid.Uint32(), rapid.SampledFrom([]uint32{0, 1, 0xffff, 0x10000, 0x7fffffff, 0x80000000, 0xffffffff}))
+)
+
+func genFixed(rt *rapid.T, kind int) fixedCase {
+	u16, u32 := fixedU16, fixedU32
+	c := fixedCase{Kind: kind}
+	if c.Kind == 137 {
+		for i := 0; i < 3; i++ {
+			c.PX[i], c.PY[i] = u16.Draw(rt, "px"), u16.Draw(rt, "py")
 		}
+		c.WX, c.WY, c.MaxL, c.MinL = u16.Draw(rt, "wx"), u16.Draw(rt, "wy"), u32.Draw(rt, "maxl"), u32.Draw(rt, "minl")
+	} else {
+		c.CLL, c.FALL = u16.Draw(rt, "cll"), u16.Draw(rt, "fall")
+	}
+	return c
+}
+
+func TestFixed(t *testing.T) {
+	harness.RunRapid(t, "fixed", func(rt *rapid.T) {
+		c := genFixed(rt, rapid.SampledFrom([]int{137, 144}).Draw(rt, "kind"))
 		raw, _ := json.Marshal(c)
 		harness.Rec.Case(true, raw, fmt.Sprintf("fixed-%d", c.Kind))
 		harness.Report(rt, "fixedsei", c, harness.Guarded(func() *harness.Fail { return checkFixed(c) }))
@@ -759,6 +1083,40 @@ func checkPass(c passCase) *harness.Fail {
 			return harness.Failf("C17|DecodePicTimingHevcSEI|decoded "+bad+" differs from value tree", "payload %x params %+v: got %s want %+v", []byte(c.Payload), c.Params, dump(g), *v)
 		}
 	}
+	if c.Kind == "hevcpictiming" {
+		// the same payload in an SEI NAL unit (prefix or suffix), parsed with an SPS whose VUI / HRD
+		// parameters carry the external parameters (hevc.fillHEVCPicTimingParams)
+		pr := c.Params
+		hrd := &hevc.HrdParameters{SubPicHrdParamsPresentFlag: pr.SubPicHrdParamsPresentFlag,
+			SubPicCpbParamsInPicTimingSeiFlag:      pr.SubPicCpbParamsInPicTimingSeiFlag,
+			AuCpbRemovalDelayLengthMinus1:          pr.AuCbpRemovalDelayLengthMinus1,
+			DpbOutputDelayLengthMinus1:             pr.DpbOutputDelayLengthMinus1,
+			DpbOutputDelayDuLengthMinus1:           pr.DpbOutputDelayDuLengthMinus1,
+			DuCpbRemovalDelayIncrementLengthMinus1: pr.DuCpbRemovalDelayIncrementLengthMinus1,
+			InitialCpbRemovalDelayLengthMinus1:     23}
+		hdr := []byte{0x4e, 0x01}
+		if pr.CpbDpbDelaysPresentFlag {
+			// CpbDpbDelaysPresentFlag = nal_hrd_parameters_present_flag || vcl_hrd_parameters_present_flag (E.3.2)
+			switch len(c.Payload) % 3 {
+			case 0:
+				hrd.NalHrdParametersPresentFlag = true
+			case 1:
+				hrd.VclHrdParametersPresentFlag = true
+				hdr = []byte{0x50, 0x01}
+			default:
+				hrd.NalHrdParametersPresentFlag, hrd.VclHrdParametersPresentFlag = true, true
+			}
+		}
+		sps := &hevc.SPS{VUI: &hevc.VUIParameters{FrameFieldInfoPresentFlag: pr.FrameFieldInfoPresentFlag, HrdParameters: hrd}}
+		nalu := append(hdr, refSEI([]msg{{Type: 1, Payload: c.Payload}})...)
+		msgs, err := hevc.ParseSEINalu(nalu, sps)
+		if err != nil {
+			return harness.Failf("C17|hevc.ParseSEINalu(sps)|error", "%v (nalu %x params %+v)", err, nalu, pr)
+		}
+		if len(msgs) != 1 || !reflect.DeepEqual(msgs[0], got) {
+			return harness.Failf("C17|hevc.ParseSEINalu(sps)|decoded pic_timing differs from DecodePicTimingHevcSEI", "nalu %x params %+v:\n got %s\nwant %s", nalu, pr, dump(msgs), dump(got))
+		}
+	}
 	if c.Kind == "cea608" {
 		if _, ok := got.(*sei.CEA608sei); !ok {
 			return harness.Failf("C17|pass-through cea608|not recognised as CEA-608", "%T", got)
@@ -777,6 +1135,17 @@ func checkPass(c passCase) *harness.Fail {
 	return nil
 }
 
+// genCEA608: user_data_registered_itu_t_t35 with the ATSC A/53 GA94 cc_data structure
+func genCEA608(t *rapid.T) []byte {
+	p := []byte{0xb5, 0x00, 0x31, 0x47, 0x41, 0x39, 0x34, 0x03}
+	n := rapid.IntRange(0, 31).Draw(t, "cc_count")
+	p = append(p, 0xc0|byte(n), 0xff)
+	for i := 0; i < n; i++ {
+		p = append(p, 0xf8|byte(rapid.IntRange(0, 7).Draw(t, "validtype")), rapid.Byte().Draw(t, "d1"), rapid.Byte().Draw(t, "d2"))
+	}
+	return append(p, 0xff)
+}
+
 func genPass(t *rapid.T) passCase {
 	c := passCase{Kind: rapid.SampledFrom([]string{"registered", "cea608", "unregistered", "hevcpictiming"}).Draw(t, "kind")}
 	switch c.Kind {
@@ -787,14 +1156,7 @@ func genPass(t *rapid.T) passCase {
 		}
 		c.Payload = p
 	case "cea608":
-		p := []byte{0xb5, 0x00, 0x31, 0x47, 0x41, 0x39, 0x34, 0x03}
-		n := rapid.IntRange(0, 31).Draw(t, "cc_count")
-		p = append(p, 0xc0|byte(n), 0xff)
-		for i := 0; i < n; i++ {
-			p = append(p, 0xf8|byte(rapid.IntRange(0, 7).Draw(t, "validtype")), rapid.Byte().Draw(t, "d1"), rapid.Byte().Draw(t, "d2"))
-		}
-		p = append(p, 0xff)
-		c.Payload = p
+		c.Payload = genCEA608(t)
 	case "unregistered":
 		c.Payload = genPayload(t, 16)
 	case "hevcpictiming":
